@@ -40,6 +40,8 @@ def model_search(mode="", limit=3000000, timeout=600):
     for l in lines:
         if l.startswith("states "):
             states = int(l.split()[1])
+        elif l.startswith("transitions ") or l.startswith("not-closable") or l.startswith("  "):
+            continue
         elif l.startswith("unsafe"):
             header = l
         elif header and not header.startswith("unsafe none"):
